@@ -1,13 +1,13 @@
 /-
 C13 — one coroutine (returning Future / Task / SharedFuture) and everything it co_awaits.
 
-Written from /repo (as it is, including D3 and the executor swap D12):
+Written from /repo (as it is, including the executor swap D12; D3 was repaired by /repo commit c9c07bc):
   coro/detail/promise_type.hpp    PromiseType: `Here/Next(caller)` = `_executor = std::move(caller._executor)` (IntrusivePtr
                                   move-assignment is a *Swap*) then resume; `Call` = resume; `Drop` = `Store(StopTag)`,
                                   `SetResult`; `Destroy::await_suspend` (final_suspend) = `SetResult`; the frame is destroyed
                                   by the state's deleter (`PromiseTypeDeleter::Delete` = `handle.destroy()`)
   coro/detail/await_awaiter.hpp   AwaitSingleAwaiter<Shared> (`co_await future`), AwaitAwaiter<Handle,false> (`Await(x)`),
-                                  AwaitAwaiter<Handle,true> (`AwaitSticky(x)`): `await_ready = !Empty()`,
+                                  AwaitAwaiter<Handle,true> (`AwaitSticky(x)`): `await_ready = Ready()` (word == kResult),
                                   `await_suspend = SetCallback(...)` (false ⇒ continue without suspending);
                                   MultiAwaitAwaiter<AwaitEvent<Sticky>>: counter n + 1, `await_ready: Get(acquire) == 1`,
                                   `await_suspend: next = promise; !SubEqual(1)`, the callback `AwaitEvent::Impl`:
@@ -22,7 +22,7 @@ Written from /repo (as it is, including D3 and the executor swap D12):
                                   CurrentExecutor: `await_suspend` returns false, `await_resume` returns `*_executor`
   algo/base_core.cpp              `SetCallbackImpl<false>`: `load(acq) == kEmpty && compare_exchange_strong(empty → cb)`;
                                   `SetCallbackImpl<true>`: `load(acq)`; loop { result ⇒ false; compare_exchange_weak(next → cb) };
-                                  `Empty()`: `load(acq) == kEmpty`;  `SetResultImpl`: `exchange(kResult)`, run the callback(s)
+                                  `Ready()`: `load(acq) == kResult`;  `SetResultImpl`: `exchange(kResult)`, run the callback(s)
 
 Scope: ONE coroutine against its environment.  Every awaited object ("cell" j) is abstracted by the interface its own
 property proves (C01: unique hand-off word, C06: shared word = list of callbacks, push fails iff result):
@@ -131,12 +131,13 @@ def obsOk (wd : Word) (x : Obs) : Prop :=
 instance (wd : Word) (x : Obs) : Decidable (obsOk wd x) := by
   unfold obsOk; cases x <;> exact inferInstance
 
-/-- **the await_ready predicate of AwaitSingleAwaiter / AwaitAwaiterBase** as the code computes it:
-    `!Empty()` = "the word is not kEmpty" (defect D3: true as soon as *any* callback is registered).
-    The repaired predicate would be `x == .result`; this is the only definition to switch. -/
-def awaitReady (x : Obs) : Bool := x != .empty
+/-- **the await_ready predicate of AwaitSingleAwaiter / AwaitAwaiterBase**: `BaseCore::Ready()` = "the word is kResult".
+    Until /repo commit c9c07bc it was `!Empty()` = `x != .empty` (defect D3: true as soon as *any* callback was registered on a
+    SharedFuture, so a second awaiter did not suspend and read an unconstructed Result).  This is the only definition to switch;
+    the proofs use it only through the two lemmas below. -/
+def awaitReady (x : Obs) : Bool := x == .result
 
-theorem awaitReady_true_ne_empty {x : Obs} (h : awaitReady x = true) : x ≠ .empty := by
+theorem awaitReady_true {x : Obs} (h : awaitReady x = true) : x = .result := by
   cases x <;> simp [awaitReady] at h ⊢
 
 theorem awaitReady_false_ne_result {x : Obs} (h : awaitReady x = false) : x ≠ .result := by
@@ -166,7 +167,7 @@ inductive Ctx where
 
 inductive CPc where
   | idle                      -- running between co_awaits (and after the last one)
-  | rdy                       -- single / sticky: `Empty()` load next
+  | rdy                       -- single / sticky: the load of `Ready()` next
   | rdyL (x : Obs)            -- … loaded, `await_ready` decision next
   | reg (p : Nat)             -- SetCallback for the p-th awaited object: load next
   | cas (p : Nat)             -- … compare_exchange next
@@ -285,33 +286,59 @@ def isMulti : AKind → Bool
   | .multi | .multiSticky | .multiOn _ => true
   | _ => false
 
-/-- kinds whose `await_ready` is `!Empty()` -/
+/-- kinds whose `await_ready` is `BaseCore::Ready()` (was `!Empty()`: D3) -/
 def emptyBased : AKind → Bool
   | .single | .sticky => true
   | _ => false
 
+/-- awaiters with a counter (AwaitOnEvent / AwaitEvent): a callback completes the awaiter only if its `SubEqual(1)` says so -/
+def counted : AKind → Bool
+  | .on _ | .multi | .multiSticky | .multiOn _ => true
+  | _ => false
+
+/-- the coroutine itself finds everything complete (SetCallback returned false / its own `SubEqual(1)` was the last):
+    AwaitOn submits the coroutine to the executor, every other awaiter lets it continue (`await_suspend` returns false) -/
+def selfDone : AKind → CPc
+  | .on e | .multiOn e => .subm e
+  | _ => .wake .inl
+
+/-- the callback run by the fulfiller of cell j completes the awaiter: sticky awaiters submit the coroutine to its own
+    executor, AwaitOn to the named one, the others resume it in place (`PromiseType::Here/Next`) -/
+def cbDone (k : AKind) (j exec : Nat) : CPc :=
+  match k with
+  | .sticky | .multiSticky => .subm exec
+  | .on e | .multiOn e => .subm e
+  | _ => .wake (.cell j)
+
 /-- after the last SetCallback of the awaiter -/
 def afterReg (s : State) (op : Op) : State :=
-  match op.kind with
-  | .single | .sticky =>
-      if s.st[0]? = some .pending then { s with pc := .susp } else { s with pc := .wake .inl }
-  | .on e => if s.st[0]? = some .pending then { s with pc := .susp } else { s with pc := .subm e }
-  | .multi | .multiSticky | .multiOn _ => { s with pc := .msub }
-  | _ => s
+  if isMulti op.kind then { s with pc := .msub }
+  else if s.st[0]? = some .pending then { s with pc := .susp }
+  else { s with pc := selfDone op.kind }
 
 def regFrom (s : State) (op : Op) (p : Nat) : State :=
   if p < op.cells.length then { s with pc := .reg p } else afterReg s op
 
+/-- AwaitOnAwaiter starts its counter at 1, the multi awaiters at n + 1 -/
+def startCnt (op : Op) : Nat :=
+  match op.kind with
+  | .on _ => 1
+  | _ => op.cells.length + 1
+
+/-- On(e) / AwaitOn(e, …) store e in `PromiseType::_executor` before anything else -/
+def startExec (k : AKind) (exec : Nat) : Nat :=
+  match k with
+  | .on e | .multiOn e | .resched (some e) => e
+  | _ => exec
+
 def doStart (s : State) (op : Op) : State :=
-  let s0 := { s with st := List.replicate op.cells.length .todo, ex0 := s.exec }
+  let s0 := { s with st := List.replicate op.cells.length .todo, ex0 := s.exec, exec := startExec op.kind s.exec,
+                     cnt := startCnt op }
   match op.kind with
   | .single | .sticky => { s0 with pc := .rdy }
-  | .on e => regFrom { s0 with cnt := 1, exec := e } op 0
-  | .multi | .multiSticky => regFrom { s0 with cnt := op.cells.length + 1 } op 0
-  | .multiOn e => regFrom { s0 with cnt := op.cells.length + 1, exec := e } op 0
+  | .on _ | .multi | .multiSticky | .multiOn _ => regFrom s0 op 0
   | .task => { s0 with pc := .tstore }
-  | .resched (some e) => { s0 with exec := e, pc := .subm e }
-  | .resched none => { s0 with pc := .subm s.exec }
+  | .resched _ => { s0 with pc := .subm (startExec op.kind s.exec) }
   | .current => { s0 with pc := .curr }
 
 def doReady (s : State) (b : Bool) : State :=
@@ -332,19 +359,16 @@ def doRegLoad (s : State) (op : Op) (p j : Nat) (x : Obs) : State :=
 def doCasOk (s : State) (op : Op) (p j : Nat) (l : List Nat) (f : Bool) : State :=
   regFrom { s.setWord j (.open (p :: l) f) with st := s.st.set p .pending } op (p + 1)
 
+/-- MultiAwaitOnAwaiter has no `await_ready` load -/
+def subNext : AKind → CPc
+  | .multiOn _ => .msusp
+  | _ => .mld
+
 def doMsub (s : State) (op : Op) : State :=
-  let s1 := { s with cnt := s.cnt - (op.cells.length - (s.st.count CbSt.pending + s.st.count CbSt.fired)) }
-  match op.kind with
-  | .multiOn _ => { s1 with pc := .msusp }
-  | _ => { s1 with pc := .mld }
+  { s with cnt := s.cnt - (op.cells.length - (s.st.count CbSt.pending + s.st.count CbSt.fired)), pc := subNext op.kind }
 
 def doMsuspend (s : State) (op : Op) : State :=
-  let s1 := { s with cnt := s.cnt - 1 }
-  if s.cnt = 1 then
-    match op.kind with
-    | .multiOn e => { s1 with pc := .subm e }
-    | _ => { s1 with pc := .wake .inl }
-  else { s1 with pc := .susp }
+  if s.cnt = 1 then { s with cnt := s.cnt - 1, pc := selfDone op.kind } else { s with cnt := s.cnt - 1, pc := .susp }
 
 /-- `StoreCallback` (a plain store: the Task has not started) and the start of the Task; starting goes through
     `PromiseType::Next(caller)`, which swaps the executors of the Task and of the awaiting coroutine -/
@@ -355,14 +379,9 @@ def doTstore (s : State) (j : Nat) : State :=
 /-- the fulfiller of cell j runs my callback p -/
 def doFire (s : State) (op : Op) (j p : Nat) (walk : List Nat) : State :=
   let s1 := { s.setWord j (.result (walk.erase p)) with st := s.st.set p .fired }
-  match op.kind with
-  | .single | .task => { s1 with pc := .wake (.cell j) }
-  | .sticky => { s1 with pc := .subm s.exec }
-  | .on e => { s1 with cnt := s.cnt - 1, pc := .subm e }
-  | .multi => if s.cnt = 1 then { s1 with cnt := s.cnt - 1, pc := .wake (.cell j) } else { s1 with cnt := s.cnt - 1 }
-  | .multiSticky => if s.cnt = 1 then { s1 with cnt := s.cnt - 1, pc := .subm s.exec } else { s1 with cnt := s.cnt - 1 }
-  | .multiOn e => if s.cnt = 1 then { s1 with cnt := s.cnt - 1, pc := .subm e } else { s1 with cnt := s.cnt - 1 }
-  | _ => s1
+  if counted op.kind then
+    (if s.cnt = 1 then { s1 with cnt := s.cnt - 1, pc := cbDone op.kind j s.exec } else { s1 with cnt := s.cnt - 1 })
+  else { s1 with pc := cbDone op.kind j s.exec }
 
 def doSubmit (s : State) (e : Nat) : State :=
   { s with pc := .queued e, submits := s.submits ++ [(s.k, e)] }
@@ -398,9 +417,10 @@ def doRet (s : State) : State := { s with pc := .fin, result := some (finalRes s
 def doPublish (s : State) (r : Res) : State := { s with pc := .done, published := s.published ++ [r] }
 def doFdtor (s : State) : State := { s with pc := .gone, frameDestroyed := s.frameDestroyed + 1 }
 
-/-- who may change the executor stored in core j behind the coroutine's back -/
+/-- who may change the executor stored in core j behind the coroutine's back: the other coroutines resumed by the same shared
+    core, and a Task that was started (it may move to another executor while it runs; over-approximated: also afterwards) -/
 def swapAllowed (s : State) (j : Nat) : Bool :=
-  s.w.unsafeCell j || ((s.w.cell j).lazy && (s.cells j).started && !(s.word j).isResult)
+  s.w.unsafeCell j || ((s.w.cell j).lazy && (s.cells j).started)
 
 inductive Step : State → Label → State → Prop where
   /-- Promise::Set / ~Promise / a coroutine's final_suspend: Store, exchange(kResult); my callbacks are run afterwards -/
@@ -418,7 +438,7 @@ inductive Step : State → Label → State → Prop where
   | exDrop (s : State) (e : Nat) (h : s.pc = .queued e) : Step s .exDrop (doDrop s)
   | start (s : State) (op : Op) (rest : List Op) (h : s.pc = .idle) (ht : s.todo = op :: rest) :
       Step s .start (doStart s op)
-  /-- `await_ready` of AwaitSingleAwaiter / AwaitAwaiterBase: `!Empty()` -/
+  /-- `await_ready` of AwaitSingleAwaiter / AwaitAwaiterBase: `Ready()` -/
   | rdLoad (s : State) (op : Op) (rest : List Op) (j : Nat) (x : Obs) (h : s.pc = .rdy) (ht : s.todo = op :: rest)
       (hj : op.cells[0]? = some j) (hx : obsOk (s.word j) x) : Step s (.rdLoad x) { s with pc := .rdyL x }
   | ready (s : State) (x : Obs) (h : s.pc = .rdyL x) : Step s (.ready (awaitReady x)) (doReady s (awaitReady x))
